@@ -178,20 +178,51 @@ def relevant(case):
     return any(o['k'] == 'emit' for o in case['hist'])
 
 
-def validate(run, cases, label):
+MAXLOG = 500      # events; longer logs of callbacks that keep subscribing equal listeners make the trace specification branch without bound
+
+
+def validate(run, cases, label, maxlog=MAXLOG):
     """Execute cases on the real code, have TLC validate the recorded logs."""
-    tf = os.path.join(core.scratch(), 'c20_%s.ndjson' % label)
     kept = []
+    for case in cases:
+        ev = run_case(case)
+        if ev is None:
+            continue
+        if maxlog and len(ev) > maxlog:
+            run.extra['behaviours_longer_than_%d_events_not_validated' % MAXLOG] = \
+                run.extra.get('behaviours_longer_than_%d_events_not_validated' % MAXLOG, 0) + 1
+            continue
+        kept.append((case, ev))
+    if kept:
+        judge(run, kept, label)
+        if len(run.samples) < 4:
+            run.samples.append({'case': kept[len(kept) // 2][0], 'recorded_events': kept[len(kept) // 2][1]})
+
+
+def judge(run, kept, label, budget=400):
+    tf = os.path.join(core.scratch(), 'c20_%s.ndjson' % label)
     with open(tf, 'w') as f:
-        for case in cases:
-            ev = run_case(case)
-            if ev is None:
-                continue
-            kept.append(case)
-            f.write(json.dumps({'tid': len(kept), 'ev': ev}) + '\n')
-    if not kept:
+        for i, (case, ev) in enumerate(kept, 1):
+            f.write(json.dumps({'tid': i, 'ev': ev}) + '\n')
+    try:
+        r = core.run_tlc('Trace_C20.tla', 'Trace_C20.cfg', env={'TRACE_FILE': tf}, timeout=budget)
+    except core.MachineryError as e:
+        if 'timed out' not in str(e):
+            raise
+        # some log in this batch makes the trace specification branch too much: find it by halving; a single log that
+        # cannot be judged in the budget is counted, not judged (never a verdict either way)
+        if len(kept) == 1:
+            run.extra['behaviours_not_validated_in_%ds' % budget] = run.extra.get('behaviours_not_validated_in_%ds' % budget, 0) + 1
+            return
+        h = (len(kept) + 1) // 2
+        judge(run, kept[:h], label + 'a', budget)
+        judge(run, kept[h:], label + 'b', budget)
         return
-    r = core.run_tlc('Trace_C20.tla', 'Trace_C20.cfg', env={'TRACE_FILE': tf}, timeout=3000)
+    finally:
+        try:
+            os.remove(tf)
+        except OSError:
+            pass
     run.add_tlc('Trace_C20[%s]' % label, r)
     acc = set()
     rej = {}
@@ -201,19 +232,17 @@ def validate(run, cases, label):
         elif v[0] == 'REJ':
             if v[1] not in rej or rej[v[1]][0] < v[2]:
                 rej[v[1]] = (v[2], v[3])
-    for i, case in enumerate(kept, 1):
+    for i, (case, ev) in enumerate(kept, 1):
         run.traces += 1
         run.evaluations += 1
         if i in acc:
             nd = sum(1 for o in case['hist'] if o['k'] == 'emit')
-            if nd and (len(case['script']) or True):
+            if nd:
                 run.distinct.add(hash(json.dumps(case, sort_keys=True)))
             continue
         at = rej.get(i, (0, 'no verdict printed'))
         run.violation(case, 'bad: call log not explained by the reference emitter at event %d (%s)'
                       % (at[0], at[1]), engine='c20')
-    if len(run.samples) < 4 and kept:
-        run.samples.append({'case': kept[len(kept) // 2], 'recorded_events': run_case(kept[len(kept) // 2])})
 
 
 def main(tier, replay=None):
@@ -292,7 +321,7 @@ def main(tier, replay=None):
             deep.append({'hist': [{'k': 'on', 'n': name, 'cb': 1, 'x': []}, {'k': 'on', 'n': name, 'cb': 2, 'x': []},
                                   {'k': 'emit', 'n': name, 'cb': 0, 'x': [1]}, {'k': 'emit', 'n': name, 'cb': 0, 'x': []}],
                          'script': {'1': [{'k': 'emit', 'n': name, 'cb': 0, 'x': [2]}]}, 'max_depth': 80, 'target': target, 'cbkind': 'closure'})
-    validate(run, deep, 'deep')
+    validate(run, deep, 'deep', maxlog=None)      # (one listener chain: long but unambiguous)
     n = 1500 if quick else 24000
     RCH = 1500       # long random behaviours branch in the trace specification: batches of the quick tier's size keep TLC fast (6000 at once took over 20 minutes)
     for target in ('Emitter', 'Parser'):
